@@ -151,6 +151,9 @@ func (g *Ghost) sort() Sort {
 	if g.Elem == "bool" {
 		s = SBool
 	}
+	if g.Elem == "string" {
+		s = SStr
+	}
 	if g.IsMap {
 		return arraySort(SInt, s)
 	}
